@@ -70,8 +70,8 @@ from vf.bounded import Outcome, Failure
 from gen import coords_mols as cm
 
 ID = 'C18'
-LEVEL = 'exploration'
-P_TARGETS = []
+LEVEL = 'other'
+P_TARGETS = ['cgsmiles.coordinates:forward_map_molecule']
 BUDGET = {'quick': 30.0, 'thorough': 420.0}
 CHUNK = 12
 BOUNDS = {
@@ -82,12 +82,12 @@ BOUNDS = {
               'embed': '3 labelings per molecule (resolver keys, permuted+shuffled, gapped+reversed)',
               'fmap': '4 labelings x 2 position seeds x 1 translation per weighted molecule',
               'max_atoms': 75, 'distinct_strings': 603},
-    'thorough': {'molecules': 'fixed list, single fragments, 26 x 20 + 12 x 12 ordered pairs, homopolymers n=3,5, 400 seeded random '
-                              'assemblies (<= 8 beads); weighted: 81 fixed + 800 seeded random',
-                 'roundtrip': '10 labelings x {no conformer, conformer} + implicit-hydrogen form x 3 labelings',
-                 'embed': '6 labelings per molecule',
+    'thorough': {'molecules': 'fixed list, single fragments, 26 x 10 + 12 x 12 ordered pairs, homopolymers n=3,5, 300 seeded random '
+                              'assemblies (<= 8 beads); weighted: 81 fixed + 600 seeded random',
+                 'roundtrip': '10 labelings without conformer, 5 of them also with conformer, + implicit-hydrogen form x 3 labelings',
+                 'embed': '5 labelings per molecule',
                  'fmap': '8 labelings x 2 position seeds x 2 translations per weighted molecule',
-                 'max_atoms': 82, 'distinct_strings': 2071},
+                 'max_atoms': 82, 'distinct_strings': 1520},
 }
 EXHAUSTIVE = {'quick': False, 'thorough': False}
 RULE = ('CGsmiles strings from gen/coords_mols.py (fixed list, every pool fragment alone, ordered pairs, homopolymers, then seeded '
@@ -138,7 +138,7 @@ RT_IMPLICIT = {'quick': [_lab('same', 'same'), _lab('perm', 'shuffle', 1)],
 EMB_LABELS = {
     'quick': [_lab('same', 'same'), _lab('perm', 'shuffle', 1), _lab('gap', 'rev')],
     'thorough': [_lab('same', 'same'), _lab('perm', 'shuffle', 1), _lab('gap', 'rev'), _lab('canon', 'same'),
-                 _lab('neg', 'sorted', 2), _lab('same', 'shuffle', 3)],
+                 _lab('neg', 'sorted', 2)],
 }
 FM_LABELS = {
     'quick': [_lab('same', 'same'), _lab('perm', 'shuffle', 1), _lab('gap', 'rev'), _lab('neg', 'sorted', 2)],
@@ -152,8 +152,8 @@ SHIFTS = [[10.0, 0.0, 0.0], [-3.5, 7.25, 100.0], [0.001, -0.002, 0.003], [1000.0
 def _mol_cases(s, tier, idx):
     for li, lab in enumerate(RT_LABELS[tier]):
         for conf in (False, True):
-            if conf and tier == 'quick' and li in (1, 4, 5):
-                continue
+            if conf and li not in ((0, 2, 3) if tier == 'quick' else (0, 2, 3, 6, 9)):
+                continue   # embedding dominates the cost: a conformer for half of the labelings
             yield {'part': 'roundtrip', 'cgs': s, 'label': lab, 'form': 'explicit', 'conformer': conf, 'rseed': 11 + idx % 5}
     for lab in RT_IMPLICIT[tier]:
         yield {'part': 'roundtrip', 'cgs': s, 'label': lab, 'form': 'implicit', 'conformer': False, 'rseed': 0}
@@ -173,9 +173,9 @@ def _fmap_cases(s, tier, idx):
 
 def cases(tier, seed):
     quick = tier == 'quick'
-    plain = list(cm.cgsmiles_strings(seed, 100 if quick else 400, weights=False, pairs='some' if quick else 'most',
+    plain = list(cm.cgsmiles_strings(seed, 100 if quick else 300, weights=False, pairs='some' if quick else 'most',
                                      max_beads=6 if quick else 8))
-    weighted = list(cm.cgsmiles_strings(seed, 200 if quick else 800, weights=True, max_beads=6 if quick else 8))
+    weighted = list(cm.cgsmiles_strings(seed, 200 if quick else 600, weights=True, max_beads=6 if quick else 8))
     seen = set()
     plain = [s for s in plain if not (s in seen or seen.add(s))]
     weighted = [s for s in weighted if not (s in seen or seen.add(s))]
